@@ -17,6 +17,8 @@ def declare(c):
     c.rule('C20.R3', 'result mapping: None -> the line, IGNORE -> dropped, list -> every command followed by the file EOL', floor=4)
     c.rule('C20.R4', 'the command handed to the handlers carries no leading whitespace, line number, comment or EOL '
                      '(as the live hook receives it and as the script splitter produces it)', floor=2)
+    c.rule('C20.R6', 'dispatch completeness: every line with a G/M/T code goes through handleGcode and every @-line through '
+                     'handleAtCommand, whatever the filter state (the live hooks are called for all of them)', floor=4)
     c.rule('C20.R5', 'the handlers receive the parsed code and sub-code of the same line', floor=2)
 
 
@@ -136,6 +138,25 @@ def line_rules(ctx, I):
     res = I.run_method(st, 'StreamProcessor', 'process_line', Obj('SP'), [LINE])
     parser_oid = 'H.gcodeParser'
     nlist = 0
+    for (s, v) in res:
+        typed = None
+        for k2, d2 in s.dom.items():
+            if k2[0] == 'null' and isinstance(k2[1], str) and k2[1].startswith('type(LINE'):
+                typed = (d2 == frozenset([False]))
+        handled = any(e[0] == 'handle' for e in s.trace)
+        at = None
+        for k2, d2 in s.dom.items():
+            if k2[0] == 'startswith' and 'text(LINE' in repr(k2):
+                at = (d2 == frozenset([True]))
+        at_handled = any(e[0] == 'handle-at' for e in s.trace)
+        ctx.instance('C20.R6', (typed, handled, at, at_handled))
+        if typed is True and not handled and not isinstance(v, Raised):
+            ctx.report('C20.R6', 'StreamProcessor.process_line', 'a line with a G/M/T code bypasses the handlers',
+                       'on some path a command line is passed through without calling handleGcode: codes that only update the '
+                       'tracked state (M206, G92, G90 ...) are missed offline although the live hook sees them',
+                       detail={'decisions': [repr(x)[:100] for x in s.declog][-8:]})
+        if typed is False and at is True and not at_handled and not isinstance(v, Raised):
+            ctx.report('C20.R6', 'StreamProcessor.process_line', 'an @-command line bypasses handleAtCommand', '')
     for (s, v) in res:
         p = Path('process_line', s, v, {})
         hres = p.dec(('handler-result',))
